@@ -31,6 +31,56 @@ def c19_streams(tier, rng, ctx):
                [raw("it_slice_spec", n, l, r) for n, l, r in slices_dom],
                rule="slice vs the inclusive-range definition for left >= -len"),
     ]
+    # the same laws on iterators whose size hint is not exact (filter, flat_map + filter) and on a chain: judged by plain list semantics
+    def src(kind, n):
+        if kind == "f":
+            return [x for x in range(n) if x % 3 != 0]
+        if kind == "m":
+            return [x for x in range(n) if x % 2 == 0 and x % 4 != 0]
+        return list(range(n)) + list(range(100, 100 + n))
+
+    def py_slice(xs, l, r):
+        n = len(xs)
+        if l < 0:
+            l += n
+        if r < 0:
+            r += n
+        if l < 0 or r < 0 or l >= n or l > r:
+            return []
+        return xs[l:min(r, n - 1) + 1]
+
+    def py_drop(xs, k):
+        if k >= 0:
+            return xs[k:]
+        return xs[:max(0, len(xs) + k)]
+
+    def adaptor_law(ln, out):
+        f = ln.split("\t")
+        kind, n = f[0][-1], int(f[1])
+        xs = src(kind, n)
+        want = py_slice(xs, int(f[2]), int(f[3])) if f[0].startswith("it_slice") else py_drop(xs, int(f[2]))
+        return out == "L:" + ",".join(str(x) for x in want)
+    small = [i for i in rng_idx if -9 <= i <= 9]
+    al = []
+    for n in range(0, 10):
+        for kind in "fmc":
+            ln_ = len(src(kind, n))
+            al += [raw("it_slice_" + kind, n, l, r) for l in small for r in small if l >= -ln_]
+            if kind != "m":
+                al += [raw("it_drop_" + kind, n, k) for k in small]
+    sts.append(Stream("it-adaptors", "pycheck", al, pycheck=adaptor_law, exhaustive=True,
+                      rule="slice and drop on filtered, flat-mapped and chained iterators (size hints not exact), lengths 0..9 x small indices: plain list semantics"))
+    fl = [raw(fn, n) for fn in ["it_first_f", "it_single_f", "it_last_f"] for n in range(0, 12)]
+
+    def adaptor_law2(ln, out):
+        f = ln.split("\t")
+        xs = [x for x in range(int(f[1])) if x % 3 == 2]
+        if f[0] == "it_first_f":
+            return out == ("N:%d" % xs[0] if xs else "NONE")
+        if f[0] == "it_single_f":
+            return out == ("N:%d" % xs[0]) if len(xs) == 1 else out.startswith("E:")
+        return out == ("N:%d" % xs[-1]) if xs else out.startswith("E:")
+    sts.append(Stream("it-adaptors-ends", "pycheck", fl, pycheck=adaptor_law2, exhaustive=True, rule="first / single / last_result on filtered iterators"))
     for fn in ["it_first", "it_first_result", "it_last_result", "it_single", "it_some", "it_consume"]:
         sts.append(Stream(fn, "mirror", [raw(fn, n) for n in lens + [100, 1000]], exhaustive=True))
     alpha = ["a", "F", "f", "A", "L", "S", "E", "0", "é", "İ", "K", "ſ", "😀", "l", "s", "e", " "]
